@@ -7,6 +7,7 @@ let () =
     | "sched" -> L_sched.run
     | "clock" -> L_clock.run
     | "history" -> L_history.run
+    | "pl" -> L_pl.run
     | _ -> prerr_endline "usage: vmodel <codec>"; exit 2 in
   try
     while true do
